@@ -18,6 +18,7 @@ type journalLine struct {
 	Begin  string  `json:"begin,omitempty"`
 	End    string  `json:"end,omitempty"`
 	CPU    string  `json:"cpu_exceeded,omitempty"`
+	Note   string  `json:"note,omitempty"`
 	Result *Result `json:"result,omitempty"`
 }
 
@@ -116,6 +117,7 @@ func WorkerMain(id, batchFile, journalFile string) int {
 	fmt.Sscan(os.Getenv("VERIF_SEED"), &seed)
 	env := &Env{Tier: os.Getenv("VERIF_TIER"), Seed: seed, Scratch: os.Getenv("VERIF_SCRATCH"), Replay: os.Getenv("VERIF_REPLAY") == "1"}
 	env.Self, _ = os.Executable()
+	env.NoteFn = func(s string) { writeJ(journalLine{Note: s}) }
 
 	// CPU watchdog (logical cost, not wall clock)
 	var wmu sync.Mutex
@@ -175,7 +177,7 @@ func trimStack(s string) string {
 	return s
 }
 
-func readJournal(path string) (done map[string]*Result, open string, cpu string) {
+func readJournal(path string) (done map[string]*Result, open string, cpu string, note string) {
 	done = map[string]*Result{}
 	f, err := os.Open(path)
 	if err != nil {
@@ -190,8 +192,11 @@ func readJournal(path string) (done map[string]*Result, open string, cpu string)
 			continue
 		}
 		switch {
+		case l.Note != "":
+			note = l.Note
 		case l.Begin != "":
 			open = l.Begin
+			note = ""
 		case l.End != "":
 			done[l.End] = l.Result
 			if open == l.End {
